@@ -124,8 +124,6 @@ def judge(ctx, gname, g, m, text, kind, skel, rng, meta=None):
             return KF_NONASCII
         if meta.get("mexpr_quote"):
             return KF_MEXPR_QUOTE
-        if re.search(r"<start>", text) and ("forall <start> start" in (wit.get("unparsed") or "") or "exists <start> start" in (wit.get("unparsed") or "")):
-            return KF_START
         if exc is not None and "does not match actual number of symbols" in str(exc):
             return KF_NEG
         if exc is not None:
@@ -139,6 +137,8 @@ def judge(ctx, gname, g, m, text, kind, skel, rng, meta=None):
         if exc is not None and re.search(r'="[^"\n]*(\[|\{(?!<))', wit.get("unparsed") or "") and any(
                 "[" in a or "{" in a for alts in g.values() for a in alts):
             return KF_BRACKET
+        if re.search(r"<start>", text) and ("forall <start> start" in (wit.get("unparsed") or "") or "exists <start> start" in (wit.get("unparsed") or "")):
+            return KF_START
         return None
     st, u = ctx.guarded(unparse_isla, f1, timeout=20)
     if st != "ok":
